@@ -168,7 +168,7 @@ def build(prop, o, workdir):
     if o.cut_loops:
         gb2 = os.path.join(workdir, o.name + ".cut.gb")
         cuts = [x for sp in o.cut_loops for x in expand(sp)]
-        cmd = ["goto-instrument", "--unwindset", ",".join("%s:2" % l for l in cuts), "--no-unwinding-assertions", gb, gb2]
+        cmd = ["goto-instrument", "--unwindset", ",".join(l if re.search(r":\d+$", l) else "%s:2" % l for l in cuts), "--no-unwinding-assertions", gb, gb2]
         rc, out, _ = sh(cmd, timeout=300)
         log += " ".join(cmd) + "\n" + out[-2000:]
         if rc != 0:
